@@ -2303,6 +2303,19 @@ func (s *BgpServer) StopBgp(ctx context.Context, r *api.StopBgpRequest) error {
 		for _, l := range s.listeners {
 			l.Close()
 		}
+		// The management loop ends with this operation, so nothing could stop
+		// the monitoring and RPKI sessions afterwards: end them here.
+		for host, c := range s.bmpManager.clientMap {
+			c.Stop()
+			delete(s.bmpManager.clientMap, host)
+		}
+		for name, w := range s.mrtManager.writer {
+			w.Stop()
+			delete(s.mrtManager.writer, name)
+		}
+		for host := range s.roaManager.clientMap {
+			_ = s.roaManager.DeleteServer(host)
+		}
 		s.bgpConfig.Global = oc.Global{}
 		return nil
 	}, false)
